@@ -34,7 +34,7 @@ PROPS = {
             "text": "Theorem engine_eq_spec / best_lot: for all histories, methods and schedules the engine model takes every piece from the best-ranked available lot; "
                     "tie to the code by Gen.Methods (decide) and the engine stream (compute_tax vs compiled model, fraction by fraction).",
             "design_ref": "DESIGN.md §3 C01"},
-    "C02": {"streams": [S("engine", 2000, 160000, ["fractions"])], "rule": ENGINE_RULE, "assumptions": [],
+    "C02": {"streams": [S("engine", 2000, 160000, ["fractions"]), S("cli", 30, 1200, ["exit", "detail", "model"])], "rule": ENGINE_RULE, "assumptions": [],
             "technique": "Lean 4 proof: cover / no-overspend / not-from-the-future on the engine model, closed-form failure criterion (Feasible) on the spec",
             "text": "Theorems cover_and_no_overspend and succeeds_iff_feasible hold for every history and method; correspondence on the engine stream incl. the exhausted status.",
             "design_ref": "DESIGN.md §3 C02"},
@@ -42,12 +42,13 @@ PROPS = {
             "technique": "Lean 4 proof: taxable events are a permutation of earn-IN + OUT + fee-INTRA; each event once and in full; regenerated type table",
             "text": "Theorems events_exact / events_perm / each_once_in_full; tie by Gen.Types and the engine + pipeline streams.",
             "design_ref": "DESIGN.md §3 C03"},
-    "C04": {"streams": [S("pipeline", 1200, 60000, ["figures", "status-crash"]), S("dec", 4000, 400000, ["value", "status"])], "rule": PIPE_RULE, "assumptions": [],
+    "C04": {"streams": [S("pipeline", 1200, 60000, ["figures", "status-crash"]), S("dec", 4000, 400000, ["value", "status"]), S("parser", 300, 15000, ["fields"])], "rule": PIPE_RULE, "assumptions": [],
             "technique": "Lean 4: formulas stated outright on the bit-exact 31-digit decimal model, exact parts-add-to-whole, rounding-error lemmas; bit-exact differential correspondence of every figure",
             "text": "Theorems proceeds/cost/gain formulas, supplied-over-computed, parts_add_to_whole (exact), two_roundings_bound, round_half_even_err; "
                     "every proceeds/cost/gain figure of generated histories is compared with the model as an exact rational, and with exact Fraction arithmetic by the oracle.",
             "design_ref": "DESIGN.md §3 C04"},
-    "C05": {"streams": [S("pipeline", 1200, 60000, ["long", "status-crash"])], "rule": PIPE_RULE + "; C05: holding periods placed at k*period days +-{0,1us,1s}", "assumptions": [],
+    "C05": {"streams": [S("pipeline", 1200, 60000, ["long", "status-crash"]), S("reports", 40, 2000, ["detail", "taxreport", "taxsheet", "status"])],
+            "rule": PIPE_RULE + "; C05: holding periods placed at k*period days +-{0,1us,1s}; reports stream for C05: LONG/SHORT cells of rp2_full_report.ods, tax_report_us.ods and tax_report_ie.ods (multi-asset, colliding row numbers)", "assumptions": [],
             "technique": "Lean 4 proof: isLong iff period*86400e6 <= instant difference; regenerated country table; correspondence on threshold pairs",
             "text": "Theorems long_iff, income_short, never_long on the model's Fraction.isLong; Gen.Countries periods decided; pipeline stream with threshold-seeking generator.",
             "design_ref": "DESIGN.md §3 C05"},
@@ -93,7 +94,7 @@ PROPS = {
             "technique": "Lean 4 proof: routing with one row counter per sheet never reuses a (sheet,row) and puts each fraction on its type's sheet; regenerated sheet maps; correspondence of abstract sheets",
             "text": "Theorem each_fraction_one_row_no_overwrite + sheet-map table theorems; tax_report_us/ie files read back and compared row by row with the Lean model; routing oracle.",
             "design_ref": "DESIGN.md §3 C14"},
-    "C15": {"streams": [S("reports", 60, 3000, ["open", "status"])], "rule": REP_RULE + "; C15: no from-date", "assumptions": ["runs without a from-date (as the property states)", "hypothesis LocalDatesMonotone (finding F6) when a to-date is given"],
+    "C15": {"streams": [S("reports", 60, 3000, ["open", "status"]), S("cli", 30, 1200, ["open", "exit", "model"])], "rule": REP_RULE + "; C15: no from-date", "assumptions": ["runs without a from-date (as the property states)", "hypothesis LocalDatesMonotone (finding F6) when a to-date is given"],
             "technique": "Lean 4 proof (exact arithmetic): realized + unrealized = acquired per lot and in total, weights add to 1, unit cost distributes; correspondence of the open-positions rows",
             "text": "Theorems realized_plus_unrealized_is_acquired, weights_add_to_one, unit_cost_is_cost_over_balance; open_positions.ods compared row by row with the Lean model; conservation oracle on the real output.",
             "design_ref": "DESIGN.md §3 C15"},
@@ -106,21 +107,24 @@ PROPS = {
             "technique": "Lean 4 proof on the JP report model: sheets = years with transactions, ascending, each once; opening balance chained to the previous existing year sheet; correspondence of sheets/rows/references",
             "text": "Theorem sheets_and_chain (jpAsset_spec) for every input; tax_report_jp.ods sheet names, rows and cross-sheet references compared with the Lean model; chain oracle on the real file.",
             "design_ref": "DESIGN.md §3 C20"},
-    "C16": {"streams": [S("cli", 60, 3000, ["exit", "files", "status", "unreadable", "model"]), S("reports", 40, 2000, ["status"])], "rule": CLI_RULE,
+    "C16": {"streams": [S("cli", 80, 3000, ["exit", "files", "status", "unreadable", "model"]), S("reports", 40, 2000, ["status"])], "rule": CLI_RULE,
             "assumptions": ["valid input = no overdraft (unless -n), every disposal covered, hypothesis FeeFiatVisible for rp2_jp (finding F13); rp2_jp with both -f and -t is a documented refusal (finding F8, C12)"],
             "technique": "Lean 4: template / method / sheet-map obligations decided over tables regenerated from the source; whole-run CLI model (options -> parse -> compute -> generators -> files); end-to-end differential runs of all five entry points over the option matrix",
             "text": "Theorems default_options_have_templates, shipped_languages_have_all_templates, every_accepted_method_exists, taxable_types_have_a_sheet, files_are_reports; "
                     "every generated valid input x supported option tuple must exit 0 and write exactly the country's reports (oracle), and exit status / file list must agree with the Lean CLI model.",
             "design_ref": "DESIGN.md §3 C16", "partial": "failures inside ezodf/lxml/babel or the file system (disk full, permissions) cannot be exhibited by the model; totality of the generator models is validated by correspondence, not yet proved"},
-    "C17": {"streams": [S("cli", 30, 900, ["exit", "files"], parallel=6)], "rule": CLI_RULE + "; C17: each case is re-run as a variant (second identical run, stale output directory, PYTHONHASHSEED=1 vs 2 in fresh interpreters, asset alone vs together)",
+    "C17": {"streams": [S("cli", 36, 900, ["exit", "files"], parallel=6), S("pipeline", 500, 30000, ["fractions", "figures", "long", "numbering", "yearly", "balances", "price", "sums", "status-engine", "status-crash"])],
+            "rule": CLI_RULE + "; C17: each case is re-run as a variant (second identical run, stale output directory, PYTHONHASHSEED=1 vs 2..4 in fresh interpreters, asset alone vs together, rows permuted); "
+                    "pipeline stream for C17: distinct instants (whole seconds or microseconds apart), 60% mixed UTC offsets with extra acquisitions whose local wall-clock reading coincides with another lot's, "
+                    "each history recomputed in-process and with the rows of each table shuffled",
             "assumptions": [],
             "technique": "Lean 4 proof: time-sorted views are invariant under row permutation when timestamps are distinct; an asset's report rows do not depend on other assets' row dictionary; the model is a pure function; monitored variants of real runs",
             "text": "Theorems row_order_irrelevant, asset_rows_independent_of_other_assets; real runs repeated under four kinds of variation must produce identical reports (oracle).",
             "design_ref": "DESIGN.md §3 C17", "partial": "iteration order inside CPython sets/dicts and third-party libraries is sampled (hash seeds 1, 2), not proved"},
-    "C18": {"streams": [S("cli", 40, 1500, ["exit", "files"])], "rule": CLI_RULE + "; C18: 30% of the invocations carry an option/config fault so that failing runs are audited too",
+    "C18": {"streams": [S("cli", 60, 1500, ["exit", "files"])], "rule": CLI_RULE + "; C18: 45% of the invocations carry an option/config fault (favouring those that end on the unexpected-error path or involve the bytes of an input file) so that failing runs are audited too",
             "assumptions": [],
             "technique": "Lean 4: forbidden-import / dangerous-call / dynamic-import / open-mode predicates decided (decide +kernel) over a table rebuilt from every .py file of the package; written files = report names theorem on the CLI model; audit-hook monitoring of real runs",
-            "text": "Theorems no_networking_or_process_import, no_process_or_dynamic_code_call, dynamic_imports_load_rp2_plugins_only, own_opens_are_read_only, written_files_are_reports; "
+            "text": "Theorems no_networking_or_process_import, no_process_or_dynamic_code_call, dynamic_imports_load_rp2_plugins_only, own_opens_are_read_only, file_mutating_calls_are_log_output_and_reports, written_files_are_reports; "
                     "every end-to-end run (valid and invalid) is executed under sys.addaudithook: no socket/subprocess event, writes confined to the output directory and ./log, inputs byte-identical.",
             "design_ref": "DESIGN.md §3 C18", "partial": "audit hooks do not see I/O done directly by C extensions; third-party packages are covered only on the paths the runs take"},
 }
